@@ -16,6 +16,7 @@ mod c09;
 mod c10;
 mod c11;
 mod c12;
+mod c13;
 mod c19;
 mod prog;
 
@@ -121,6 +122,7 @@ fn main() {
         "c10" => c10::run(&ctx),
         "c11" => c11::run(&ctx),
         "c12" => c12::run(&ctx),
+        "c13" => c13::run(&ctx),
         "c19" => c19::run(&ctx),
         "c19dump" => c19::dump(&ctx),
         _ => {
